@@ -315,7 +315,7 @@ def detect_jitter(ctx, st, rc, noise, pat, replay):
             return None
         ctx.cov.outcome("jitter_added_from_scratch")
         return lad
-    ctx.V.add(f"jitter/not-on-ladder:{pat}",
+    ctx.V.add(f"chol/diag-not-K-plus-noise-or-ladder-jitter:{pat}",
               f"diag(L L^T) - diag(K) = {float(np.median(eff))!r} is neither the noise variance {noise} nor "
               f"noise + 1e-9*max(1,mean diag)*10^k", replay)
     return None
@@ -408,6 +408,14 @@ def check_joint(ctx, st, rc, cols, tidx, pat, replay):
         k = round(np.log10(max(jit - base, 1e-300) / j0))
         lad = base + j0 * 10.0 ** k
         if jit > base and 0 <= k <= 12 and abs(jit - lad) <= 1e-6 * lad + 4 * slack:
+            prev = base + (j0 * 10.0 ** (k - 1) if k > 0 else 0.0)
+            lam = np.linalg.eigvalsh(C + prev * np.eye(nt))
+            margin = 4.0 * float(np.linalg.norm(tol, 2))
+            if lam[0] > margin:
+                ctx.V.add(f"sample_joint/jitter-not-minimal:{pat}",
+                          f"extra jitter {lad - base:g} although posterior covariance + {prev:g} I is safely positive "
+                          f"definite (lambda_min {lam[0]:.3g} > margin {margin:.3g})", replay)
+                return
             used = lad
             ctx.cov.outcome("jitter_added_sample_joint")
         # else: fall through, the comparison below reports it
